@@ -150,8 +150,8 @@ impl Prop for C03 {
             child_remove: 3,
             parent_remove: 2,
             ca_delete: 2,
-            mapping: 2,
-            keyroll: 8,
+            mapping: 6,
+            keyroll: 12,
             republish: 3,
             renew: 1,
             publisher: 0,
